@@ -64,7 +64,8 @@ Proof.
   - apply Consec2_glue.
     + replace ((x0 :: L ++ xm :: U) ++ [x0]) with (x0 :: L ++ xm :: U ++ [x0]); [exact HE|].
       cbn. rewrite <- app_assoc. reflexivity.
-    + intros l1 a b l2 E. destruct l1 as [|? [|? ?]]; cbn in E; try discriminate.
+    + intros l1 a b l2 E. destruct l1 as [|? [|? l1]]; cbn in E;
+        [|discriminate|injection E as _ _ E; destruct l1; discriminate].
       injection E as <- <- _. rewrite cross_rep1. lia.
   - cbn. rewrite <- !app_assoc. cbn. rewrite <- app_assoc. reflexivity.
 Qed.
